@@ -13,6 +13,7 @@ import Kitoken.Model.Export
 import Kitoken.Spec.Keeps
 import Kitoken.Model.Tiktoken
 import Kitoken.Model.ConvertHf
+import Kitoken.Model.ConvertSp
 namespace Kitoken.Driver
 
 open Kitoken Std
@@ -159,6 +160,9 @@ structure State where
   hfAdded : HashMap Nat (Array Convert.AddedToken) := {}
   hfVocab : HashMap Nat (Array (Bytes × Nat × Nat)) := {}
   hfMerges : HashMap Nat (Array Bytes) := {}
+  /-- C15: the parsed fields of a SentencePiece source (SPT / SPP lines) -/
+  spTrainer : HashMap Nat Convert.Trainer := {}
+  spPieces : HashMap Nat (Array Convert.Piece) := {}
 
 def showInit : Except InitError (Tokenizer Score) → String
   | .ok _ => "OK"
@@ -857,6 +861,49 @@ def handleHfLine (st : State) (kind : String) (args : List String) : State × St
         ({ st with hfMerges := st.hfMerges.insert slot (arr.push t) }, "ACK")
       | _, _ => (st, "BAD-OP"))
   | _, _ => (st, "BAD-OP")
+
+def parsePieceType : String → Option Convert.PieceType
+  | "N" => some .normal | "U" => some .unknown | "C" => some .control
+  | "D" => some .userDefined | "X" => some .unused | "B" => some .byte
+  | _ => none
+
+/-- `SPT <slot> <unk id> <bos id> <eos id> <pad id> <unk piece> <bos piece> <eos piece> <pad piece> <unk surface> <bpe>`
+    and `SPP <slot> <text | ~> <score bits> <type>`. -/
+def handleSpLine (st : State) (kind : String) (args : List String) : State × String :=
+  match kind, args with
+  | "SPT", [slot, u, b, e, p, up, bp, ep, pp, us, bpe] =>
+    (match slot.toNat?, u.toNat?, b.toNat?, e.toNat?, p.toNat?, parseHex up, parseHex bp, parseHex ep, parseHex pp, parseHex us, parseBool bpe with
+      | some slot, some u, some b, some e, some p, some up, some bp, some ep, some pp, some us, some bpe =>
+        let t : Convert.Trainer := ⟨UInt32.ofNat u, UInt32.ofNat b, UInt32.ofNat e, UInt32.ofNat p, up, bp, ep, pp, us, bpe⟩
+        ({ st with spTrainer := st.spTrainer.insert slot t }, "ACK")
+      | _, _, _, _, _, _, _, _, _, _, _ => (st, "BAD-OP"))
+  | "SPP", [slot, text, score, ty] =>
+    (match slot.toNat?, (if text == "~" then some none else (parseHex text).map some), score.toNat?, parsePieceType ty with
+      | some slot, some text, some score, some ty =>
+        let arr := st.spPieces.getD slot #[]
+        let st := { st with spPieces := st.spPieces.erase slot }
+        let pc : Convert.Piece := ⟨text, UInt32.ofNat score, ty⟩
+        ({ st with spPieces := st.spPieces.insert slot (arr.push pc) }, "ACK")
+      | _, _, _, _ => (st, "BAD-OP"))
+  | _, _ => (st, "BAD-OP")
+
+/-- `CONVSP <slot> :: OK | ERR`: the Lean model of the SentencePiece converter's vocabulary path against the
+    implementation's result in the slot. -/
+def handleConvSp (st : State) (args : List String) : String :=
+  match args with
+  | [slot] =>
+    match slot.toNat? with
+    | some slot =>
+      (match Convert.convertSp st.spTrainer[slot]? (st.spPieces.getD slot #[]).toList id id, st.convs[slot]? with
+        | .ok o, some c =>
+          let what := if o.vocab != c.vocab then "DIFF vocabulary"
+            else if !o.scores.isEmpty && o.scores != c.scores then "DIFF scores"
+            else if !sameSpecials o.specials c.specials then "DIFF specials" else "OK"
+          s!"{what} || HOLDS-NA"
+        | .error _, _ => "ERR || HOLDS-NA"
+        | .ok _, none => "OK-NO-SLOT || HOLDS-NA")
+    | none => "BAD-OP"
+  | _ => "BAD-OP"
 
 /-- `CONVHF <slot> <bpe|unigram|wordpiece> <unknown: token hex / id / -> <byteChars> <byteRunes> :: OK`: the Lean model of
     the converter's vocabulary path on the parsed source against the implementation's result in the slot. -/
